@@ -1001,7 +1001,7 @@ func c19Judge(kind string, want, got *c19Outcome) (string, string) {
 		}
 		class := "trace-differs"
 		switch {
-		case w.K == 'E' && (g.K == 'E' && g.I > w.I || g.K == 'C'):
+		case w.K == 'E' && (g.K == 'E' && g.I > w.I || g.K == 'C' || g.K == 'B'):
 			class = "next-skips-stage"
 		case w.K == 'E' && g.K == 'E' && g.I == w.I && g.M != w.M:
 			class = "message-not-forwarded"
@@ -1013,6 +1013,8 @@ func c19Judge(kind string, want, got *c19Outcome) (string, string) {
 			class = "message-not-forwarded-to-core"
 		case w.K == 'C' && g.K == 'C':
 			class = "context-not-forwarded-to-core"
+		case w.K == 'B' && g.K == 'C':
+			class = "message-not-forwarded-to-core"
 		case w.K == 'C' && g.K == 'E':
 			class = "stage-runs-again"
 		case (w.K == 'B' || w.K == 'R') && g.K == w.K && g.I == w.I:
@@ -1177,22 +1179,25 @@ func driveC19(c *h.Ctx) error {
 				msgs = []int64{1, 2}
 			}
 			count := 0
-			var rec func(chain []c19Stage)
-			rec = func(chain []c19Stage) {
-				cases = append(cases, c19Case{Kind: kind, Chain: append([]c19Stage{}, chain...), Script: c19Scripts(kind, count), Tags: []int64{9}, Msgs: msgs, Origin: "exhaustive"})
-				count++
-				if len(chain) == maxLen {
-					return
+			// shortest chains first, so that the first failing case of a signature is a smallest one
+			for want := 0; want <= maxLen; want++ {
+				var rec func(chain []c19Stage)
+				rec = func(chain []c19Stage) {
+					if len(chain) == want {
+						cases = append(cases, c19Case{Kind: kind, Chain: append([]c19Stage{}, chain...), Script: c19Scripts(kind, count), Tags: []int64{9}, Msgs: msgs, Origin: "exhaustive"})
+						count++
+						return
+					}
+					letters := c19Letters
+					if maxLen == 4 {
+						letters = 8
+					}
+					for k := 0; k < letters; k++ {
+						rec(append(chain, c19Letter(k, len(chain))))
+					}
 				}
-				letters := c19Letters
-				if maxLen == 4 {
-					letters = 8
-				}
-				for k := 0; k < letters; k++ {
-					rec(append(chain, c19Letter(k, len(chain))))
-				}
+				rec(nil)
 			}
-			rec(nil)
 			// the full alphabet up to length 3 also in the thorough tier
 			if maxLen == 4 {
 				var rec3 func(chain []c19Stage, used bool)
